@@ -574,15 +574,20 @@ class Dict(dict, base.Symbolic, pg_typing.CustomTyping):
       new_value = self._formalized_value(key, field, value)
       super().__setitem__(key, new_value)
 
-    # NOTE(daiyip): If current dict is the field dict of a symbolic object,
-    # Use parent object as update target.
-    target = self
-    if (self.sym_parent is not None
-        and self.sym_parent.sym_path == self.sym_path):
-      target = self.sym_parent
     self._invalidate_content_caches()
     return base.FieldUpdate(
-        utils.KeyPath(key, self.sym_path), target, field, old_value, new_value)
+        utils.KeyPath(key, self.sym_path), self._update_target, field,
+        old_value, new_value)
+
+  @property
+  def _update_target(self) -> base.Symbolic:
+    """Returns the target of the field updates of this dict."""
+    # NOTE(daiyip): If current dict is the field dict of a symbolic object,
+    # Use parent object as update target.
+    if (self.sym_parent is not None
+        and self.sym_parent.sym_path == self.sym_path):
+      return self.sym_parent
+    return self
 
   def _detach(self, value: Any) -> None:
     """Detaches a value that leaves this dict from the object tree."""
@@ -793,6 +798,13 @@ class Dict(dict, base.Symbolic, pg_typing.CustomTyping):
     key, value = super().popitem()
     self._detach(value)
     self._invalidate_content_caches()
+    updates = [
+        base.FieldUpdate(
+            utils.KeyPath(key, self.sym_path), self._update_target, None,
+            value, pg_typing.MISSING_VALUE)
+    ]
+    if flags.is_change_notification_enabled() and updates:
+      self._notify_field_updates(updates)
     return key, value
 
   def clear(self) -> None:
@@ -807,7 +819,9 @@ class Dict(dict, base.Symbolic, pg_typing.CustomTyping):
 
     if value_spec:
       try:
-        self.use_value_spec(value_spec, self._allow_partial)
+        # The defaults put back are notified below, along with the removals.
+        with flags.notify_on_change(False):
+          self.use_value_spec(value_spec, self._allow_partial)
       except Exception:
         # A rejected clear leaves the Dict (and its value spec) as it was.
         super().clear()
@@ -818,6 +832,24 @@ class Dict(dict, base.Symbolic, pg_typing.CustomTyping):
     # The removed values are detached only once the clear has succeeded.
     for value in items.values():
       self._detach(value)
+
+    updates = []
+    for key, old_value in items.items():
+      # A value spec may have re-populated the key with its default.
+      new_value = pg_typing.MISSING_VALUE
+      if key in self:
+        new_value = self.sym_getattr(key)
+      if new_value is old_value:
+        continue
+      field = None
+      if value_spec and value_spec.schema:
+        field = value_spec.schema.get_field(key)
+      updates.append(
+          base.FieldUpdate(
+              utils.KeyPath(key, self.sym_path), self._update_target, field,
+              old_value, new_value))
+    if flags.is_change_notification_enabled() and updates:
+      self._notify_field_updates(updates)
 
   def setdefault(self, key: Union[str, int], default: Any = None) -> Any:
     """Sets default as the value to key if not present."""
